@@ -1031,5 +1031,70 @@ fn engine_pass(host: usize, ibs: usize, ctx: &mut Ctx) {
 			drop(keep);
 		}
 	}
+	// a command issued right after play(), before the first callback: on every host the sound behaves as on the main track
+	if host >= 1 {
+		for cmd in 0..4usize {
+			for pat in [&[1usize][..], &[7, 1, 2][..], &[4, 9, 5][..]] {
+				ctx.evals += 1;
+				let render = |host: usize| -> Result<Vec<(f32, f32)>, String> {
+					let mut m = rig::manager(SRE, ibs, rig::caps(4), MainTrackBuilder::new());
+					let data = rig::static_data(SRE, frames.clone());
+					let mut keep: Vec<Box<dyn std::any::Any>> = vec![];
+					let mut h = match host {
+						0 => m.play(data).map_err(|_| "play")?,
+						1 => {
+							let mut t = m.add_sub_track(TrackBuilder::new()).map_err(|_| "track")?;
+							let h = t.play(data).map_err(|_| "play")?;
+							keep.push(Box::new(t));
+							h
+						}
+						2 => {
+							let mut t = m.add_sub_track(TrackBuilder::new()).map_err(|_| "track")?;
+							let mut u = t.add_sub_track(TrackBuilder::new()).map_err(|_| "nested")?;
+							let h = u.play(data).map_err(|_| "play")?;
+							keep.push(Box::new(u));
+							keep.push(Box::new(t));
+							h
+						}
+						_ => {
+							let l = m.add_listener(glam::Vec3::ZERO, glam::Quat::IDENTITY).map_err(|_| "listener")?;
+							let mut t = m.add_spatial_sub_track(&l, glam::Vec3::new(0.0, 0.0, -1.0), SpatialTrackBuilder::new().attenuation_function(None).spatialization_strength(0.0)).map_err(|_| "spatial")?;
+							let h = t.play(data).map_err(|_| "play")?;
+							keep.push(Box::new(t));
+							keep.push(Box::new(l));
+							h
+						}
+					};
+					match cmd {
+						0 => h.seek_to(5.0 / SRE as f64),
+						1 => h.set_loop_region(Region { start: PlaybackPosition::Samples(2), end: kira::sound::EndPosition::Custom(PlaybackPosition::Samples(6)) }),
+						2 => h.seek_by(0.5),
+						_ => h.set_playback_rate(PlaybackRate(2.0), kira::Tween { start_time: kira::StartTime::Immediate, duration: std::time::Duration::ZERO, easing: kira::Easing::Linear }),
+					}
+					let mut out = vec![];
+					let mut k = 0;
+					while out.len() < 30 {
+						rig::render_stereo(&mut m, pat[k % pat.len()], &mut out);
+						k += 1;
+					}
+					drop(keep);
+					Ok(out)
+				};
+				let (Ok(reference), Ok(got)) = (render(0), render(host)) else {
+					ctx.fail("engine pass: scene could not be built", "command right after play");
+					continue;
+				};
+				let tol = if host == 3 { 1e-6 } else { 0.0 };
+				if let Some(i) = (0..30).find(|&i| (got[i].0 - reference[i].0).abs() > tol || (got[i].1 - reference[i].1).abs() > tol) {
+					ctx.fail(
+						format!("a command issued right after play() takes effect later than on the main track :: engine pass on the {}", ENGINE_HOSTS[host]),
+						format!("15-frame index-coded sound played on the {}; {} before the first callback; internal buffer {}, callbacks {:?}: output frame {} = {:?}, on the main track {:?}; left channel x16 {:?} vs {:?}", ENGINE_HOSTS[host], ["seek_to(frame 5)", "set_loop_region(2..6)", "seek_by(0.5 s = 4 frames)", "set_playback_rate(2, instant)"][cmd], ibs, pat, i, got[i], reference[i], got.iter().map(|f| (f.0 * 16.0).round() as i32).collect::<Vec<_>>(), reference.iter().map(|f| (f.0 * 16.0).round() as i32).collect::<Vec<_>>()),
+					);
+				} else {
+					ctx.nontrivial_extra += 1;
+				}
+			}
+		}
+	}
 	ctx.outcome(hash64(&("engine", host, ibs)));
 }
